@@ -30,6 +30,8 @@ Merge(f, recs, i) == IF i > Len(recs) THEN f ELSE Merge(Put(f, Key(recs[i]), Max
 RECURSIVE MergeF(_, _, _)
 MergeF(f, g, ks) == IF ks = {} THEN f ELSE LET k == CHOOSE x \in ks : TRUE IN MergeF(Put(f, k, Max(Get(f, k, -1), g[k])), g, ks \ {k})
 Others(m) == UNION {own[x] : x \in (DOMAIN own) \ {m}}
+\* issue index of the commit that carried offset o (the driver gives every commit of a scenario a distinct offset; 0 = unknown)
+KOf(o) == LET K == {k \in DOMAIN issued : issued[k] = o} IN IF K = {} THEN 0 ELSE CHOOSE k \in K : \A j \in K : j <= k
 LastOk == IF okSet = {} THEN 0 ELSE CHOOSE k \in okSet : \A j \in okSet : j <= k
 \* a commit later than the last confirmed one may have been applied without the client learning it (cancelled / failed after arrival)
 AllowedFinal == {issued[LastOk]} \cup {issued[k] : k \in {j \in DOMAIN issued : j > LastOk /\ issued[j] \in arrived}}
@@ -39,7 +41,7 @@ Checks(e) ==
          << <<\A i \in DOMAIN e.offsets : e.offsets[i].o <= Get(done, Key(e.offsets[i]), -1) + 1,
               "a committed offset covers records that were not yet returned by a poll that was followed by another poll">> >>
     [] e.ev = "commit_arrive" /\ mode = "commits" ->
-         << <<\A i \in DOMAIN e.offsets : e.offsets[i].o >= lastArr, "offset commits reached the coordinator out of issue order">> >>
+         << <<\A i \in DOMAIN e.offsets : KOf(e.offsets[i].o) >= lastArr, "offset commits reached the coordinator out of issue order">> >>
     [] e.ev = "settled" ->
          << <<\A t \in SeqSet(e.subscribed) : \A p \in 0..(nparts - 1) :
                 Cardinality({m \in SeqSet(e.live) : m \in DOMAIN own /\ (t \o "/" \o ToString(p)) \in own[m]}) = 1,
@@ -73,7 +75,7 @@ Apply(e) ==
     [] e.ev = "commit_done" -> okSet' = (IF e.ok THEN okSet \cup {e.k} ELSE okSet) /\ U(<<mode, nparts, own, pending, done, returned, issued, arrived, lastArr, clientC, traces>>)
     [] e.ev = "commit_arrive" /\ mode = "commits" ->
          /\ arrived' = arrived \cup {e.offsets[i].o : i \in DOMAIN e.offsets}
-         /\ lastArr' = (IF Len(e.offsets) > 0 THEN e.offsets[1].o ELSE lastArr)
+         /\ lastArr' = (IF Len(e.offsets) > 0 THEN KOf(e.offsets[1].o) ELSE lastArr)
          /\ U(<<mode, nparts, own, pending, done, returned, issued, okSet, clientC, traces>>)
     [] e.ev = "client_committed" -> clientC' = e.off /\ U(<<mode, nparts, own, pending, done, returned, issued, okSet, arrived, lastArr, traces>>)
     [] OTHER -> U(<<mode, nparts, own, pending, done, returned, issued, okSet, arrived, lastArr, clientC, traces>>)
